@@ -38,6 +38,8 @@ def iter_base(t: Term) -> tuple[Term, str]:
         elif t[0] == "call" and t[1] == ("global", "reversed") and t[2]:
             direction = "reverse" if direction == "forward" else "forward"
             t = t[2][0]
+        elif t[0] == "call" and t[1] == ("global", "range") and len(t[2]) == 1 and t[2][0][0] == "call" and t[2][0][1] == ("global", "len") and len(t[2][0][2]) == 1:
+            t = t[2][0][2][0]  # an index loop over the collection
         elif t[0] == "sub" and t[2][0] == "slice" and t[2][1:] == (("const", None), ("const", None), ("unop", "-", ("const", 1))):
             direction = "reverse" if direction == "forward" else "forward"
             t = t[1]
@@ -248,4 +250,38 @@ def non_accumulating_liveouts(cfg: CFG, head: Node) -> list[tuple[str, Node]]:
             reads_itself = d.kind == "aug" or (d.name, n.id) in carried
             if not reads_itself:
                 out.append((d.name, n))
+    return out
+
+
+def self_effects(p: Program, fn: FunctionInfo, depth: int = 3, _seen: set | None = None) -> dict[str, list[Term]]:
+    """`self.<attr> = value` stores and `self.<attr>.<mutator>()` calls of fn, followed through calls on self / super()
+    (resolved through the MRO). Returns attr -> [value terms] ; mutator calls are recorded as ('call', <mutator>)."""
+    seen = _seen if _seen is not None else set()
+    out: dict[str, list[Term]] = {}
+    if fn.qualname in seen or depth < 0:
+        return out
+    seen.add(fn.qualname)
+    r = Resolver(p, fn)
+    cfg = r.cfg
+    for n in cfg.stmt_nodes():
+        for t in cfg.stores_at(n):
+            if isinstance(t, ast.Attribute) and r.term(t.value, n) == ("param", "self") and getattr(n.ast, "value", None) is not None:
+                out.setdefault(t.attr, []).append(r.term(n.ast.value, n))  # type: ignore[union-attr]
+        for c in cfg.calls_in(n):
+            if not isinstance(c.func, ast.Attribute):
+                continue
+            recv = r.term(c.func.value, n)
+            name = c.func.attr
+            if recv == ("param", "self") or recv == ("call", ("global", "super"), (), ()):
+                if fn.cls is None:
+                    continue
+                mro = fn.cls.mro if recv == ("param", "self") else fn.cls.mro[1:]
+                target = next((k.methods[name] for k in mro if name in k.methods), None)
+                if target is not None:
+                    for k, v in self_effects(p, target, depth - 1, seen).items():
+                        out.setdefault(k, []).extend(v)
+            elif recv[0] == "attr" and recv[1] == ("param", "self"):
+                out.setdefault(recv[2], []).append(("call", ("const", name), (), ()))
+            elif recv[0] == "attr" and recv[1][0] == "attr" and recv[1][1] == ("param", "self"):
+                out.setdefault(f"{recv[1][2]}.{recv[2]}", []).append(("call", ("const", name), (), ()))
     return out
